@@ -963,12 +963,11 @@ theorem recv_eos (s2 : St) (c a : List Log) (hu : s2.unread = logItems c) :
   unfold recv
   rw [hu, ← logItems_append, read_logs_only]
 
-theorem recv_err (s2 : St) (c : List Log) (e : Exn) (hu : s2.unread = logItems c) :
-    recv s2 [Item.err e] =
-      ((close { s2 with unread := [] }).1, Sem.lg c ++ [errEv e] ++ (close { s2 with unread := [] }).2, .error) := by
+theorem recv_err (s2 : St) (c a : List Log) (e : Exn) (hu : s2.unread = logItems c) :
+    recv s2 (logItems a ++ [Item.err e]) =
+      ((close { s2 with unread := [] }).1, Sem.lg (c ++ a) ++ [errEv e] ++ (close { s2 with unread := [] }).2, .error) := by
   unfold recv
-  rw [hu, read_logs_err]
-
+  rw [hu, regroup_err, read_logs_err]
 
 /-- a session in the state the producer iteration keeps it in -/
 structure Ready (s : St) (c : List Log) : Prop where
@@ -1045,13 +1044,13 @@ theorem next_finish (s : St) (c : List Log) (h : Ready s c) (hl : s.live = true)
   rw [recv_eos _ c _ (by simp [ticked, h.unread])]
   simp [close, ticked, h.closed, drainAll]
 
-theorem next_fail (s : St) (c : List Log) (h : Ready s c) (hl : s.live = true) (hd : p.decl = []) (e : Exn)
-    (hrs : runStep p s.k = .fail [.err e]) :
-    (next env p s).2 = (Sem.lg c ++ [errEv e], false) := by
+theorem next_fail (s : St) (c a : List Log) (h : Ready s c) (hl : s.live = true) (hd : p.decl = []) (e : Exn)
+    (hrs : runStep p s.k = .fail (logItems a ++ [.err e])) :
+    (next env p s).2 = (Sem.lg (c ++ a) ++ [errEv e], false) := by
   simp only [next, h.gen, Bool.false_eq_true, if_false, tick]
   rw [tick_run env p s c h hl hd]
   simp only [hrs]
-  rw [recv_err _ c e (by simp [ticked, h.unread])]
+  rw [recv_err _ c a e (by simp [ticked, h.unread])]
   simp [close, ticked, h.closed, drainAll]
 
 /-- the server has left its loop (after emit+finish): the next tick only reads what is left and meets EOS -/
@@ -1109,13 +1108,15 @@ theorem nextN_iterate (hd : p.decl = []) : ∀ (rest : List Step) (s : St) (c : 
       rw [regroup, read_logs_data]
       simp [read_logs_only]
     | raise e =>
-      have hn := next_fail env p s c h hl hd e (by simp [runStep, hp, hst, processStep, hact])
+      have hn := next_fail env p s c st.logs h hl hd e (by simp [runStep, hp, hst, processStep, hact])
       rw [show next env p s = ((next env p s).1, (next env p s).2) from rfl, hn]
-      simp [Pipe.iterate, processStep, hact, read_logs_err]
+      simp only [Pipe.iterate, processStep, hact]
+      rw [regroup_err, read_logs_err]
     | nothing =>
-      have hn := next_fail env p s c h hl hd noDataExn (by simp [runStep, hp, hst, processStep, hact])
+      have hn := next_fail env p s c st.logs h hl hd noDataExn (by simp [runStep, hp, hst, processStep, hact])
       rw [show next env p s = ((next env p s).1, (next env p s).2) from rfl, hn]
-      simp [Pipe.iterate, processStep, hact, read_logs_err]
+      simp only [Pipe.iterate, processStep, hact]
+      rw [regroup_err, read_logs_err]
 
 end PipeSession
 
@@ -1219,9 +1220,13 @@ theorem pullThen_turn (hp : p.isProducer = true) : ∀ (rest : List Step) (pos :
       rw [nextN_reader c p n' _ _ rfl, ← List.append_nil (logItems st.post), pullThen_logs]
       simp [pullThen, pull, List.append_assoc]
     | raise e =>
-      simp [Http.turn, processStep, hact, Sem.producer, pullThen, pull, Sem.failLogs]
+      simp only [Http.turn, processStep, hact, Sem.producer, Sem.failLogs]
+      rw [pullThen_logs]
+      simp [pullThen, pull]
     | nothing =>
-      simp [Http.turn, processStep, hact, Sem.producer, pullThen, pull, Sem.failLogs]
+      simp only [Http.turn, processStep, hact, Sem.producer, Sem.failLogs]
+      rw [pullThen_logs]
+      simp [pullThen, pull]
 
 
 /-- what the iterator still delivers once the pending batches are handed out -/
@@ -1407,31 +1412,40 @@ theorem exchange_emit (s : St) (cl : List Log) (b b' : IBatch) (h : XReady s cl 
   simp only [hrs]
   rw [recv_data _ cl _ _ d (by simp [served, h.unread])]
 
-theorem exchange_fail (s : St) (cl : List Log) (b b' : IBatch) (h : XReady s cl b.schema)
-    (hb : coerceInput env p.decl b = .ok b') (e : Exn) (hrs : runStep p s.k = .fail [.err e]) :
-    (exchange env p s b).2 = Sem.lg cl ++ [errEv e] ∧ (exchange env p s b).1.closed = true := by
+theorem exchange_fail (s : St) (cl a : List Log) (b b' : IBatch) (h : XReady s cl b.schema)
+    (hb : coerceInput env p.decl b = .ok b') (e : Exn) (hrs : runStep p s.k = .fail (logItems a ++ [.err e])) :
+    (exchange env p s b).2 = Sem.lg (cl ++ a) ++ [errEv e] ∧ (exchange env p s b).1.closed = true := by
   unfold exchange
   rw [sendRecv_x env p s cl b b' h hb]
   simp only [hrs]
-  rw [recv_err _ cl e (by simp [served, h.unread])]
+  rw [recv_err _ cl a e (by simp [served, h.unread])]
   simp [close, served, h.closed, drainAll]
-
 
 theorem drainAll_logItems (cl : List Log) : drainAll (logItems cl) = Sem.lg cl := by
   induction cl with
   | nil => rfl
   | cons l r ih => simp only [logItems, List.map_cons, drainAll, Sem.lg] at ih ⊢; rw [ih]
 
-/-- in exchange mode every step that does not emit fails with one EXCEPTION batch -/
+/-- in exchange mode every step that does not emit fails: its logs, then one EXCEPTION batch -/
 theorem runStep_fail (hx : p.isProducer = false) (k : Nat) (hne : ∀ d, (p.stepAt k).act ≠ .emit d) :
-    ∃ e, runStep p k = .fail [.err e] ∧
-      processExchangeStep (p.stepAt k) = .fail [.err e] := by
+    ∃ a e, runStep p k = .fail (logItems a ++ [.err e]) ∧
+      processExchangeStep (p.stepAt k) = .fail (logItems a ++ [.err e]) := by
   cases hact : (p.stepAt k).act with
   | emit d => exact absurd hact (hne d)
-  | finish => exact ⟨finishOnExchangeExn, by simp [runStep, hx, processExchangeStep, hact], by simp [processExchangeStep, hact]⟩
-  | emitFinish d => exact ⟨finishOnExchangeExn, by simp [runStep, hx, processExchangeStep, hact], by simp [processExchangeStep, hact]⟩
-  | raise e => exact ⟨e, by simp [runStep, hx, processExchangeStep, processStep, hact], by simp [processExchangeStep, processStep, hact]⟩
-  | nothing => exact ⟨noDataExn, by simp [runStep, hx, processExchangeStep, processStep, hact], by simp [processExchangeStep, processStep, hact]⟩
+  | finish =>
+    exact ⟨(p.stepAt k).logs ++ (p.stepAt k).post, finishOnExchangeExn,
+      by simp [runStep, hx, processExchangeStep, hact, logItems_append],
+      by simp [processExchangeStep, hact, logItems_append]⟩
+  | emitFinish d =>
+    exact ⟨(p.stepAt k).logs ++ (p.stepAt k).post, finishOnExchangeExn,
+      by simp [runStep, hx, processExchangeStep, hact, logItems_append],
+      by simp [processExchangeStep, hact, logItems_append]⟩
+  | raise e =>
+    exact ⟨(p.stepAt k).logs, e, by simp [runStep, hx, processExchangeStep, processStep, hact],
+      by simp [processExchangeStep, processStep, hact]⟩
+  | nothing =>
+    exact ⟨(p.stepAt k).logs, noDataExn, by simp [runStep, hx, processExchangeStep, processStep, hact],
+      by simp [processExchangeStep, processStep, hact]⟩
 
 theorem run_exchange (hx : p.isProducer = false) (sch : Schema) : ∀ (inputs : List IBatch) (s : St) (cl : List Log),
     XReady s cl sch → (∀ b ∈ inputs, b.schema = sch ∧ ∃ b', coerceInput env p.decl b = .ok b') →
@@ -1468,7 +1482,7 @@ theorem run_exchange (hx : p.isProducer = false) (sch : Schema) : ∀ (inputs : 
       simp only [Pipe.exchangeAll, Pipe.exchangeOne, processExchangeStep, processStep, hact]
       rw [regroup, read_logs_data]
     · have hne : ∀ d, (p.stepAt s.k).act ≠ .emit d := fun d hd => hem ⟨d, hd⟩
-      obtain ⟨e, hrs, hpx⟩ := runStep_fail p hx s.k hne
+      obtain ⟨a, e, hrs, hpx⟩ := runStep_fail p hx s.k hne
       have hrest : rest = [] := by
         cases rest with
         | nil => rfl
@@ -1477,10 +1491,10 @@ theorem run_exchange (hx : p.isProducer = false) (sch : Schema) : ∀ (inputs : 
           obtain ⟨d, hd⟩ := hall (p.stepAt s.k) (by simp [playedFrom_succ])
           exact hne d hd
       subst hrest
-      obtain ⟨h1, h2⟩ := exchange_fail env p s cl b b' h' hb e hrs
+      obtain ⟨h1, h2⟩ := exchange_fail env p s cl a b b' h' hb e hrs
       simp only [List.map_nil, List.nil_append, run, step, close, h2, if_true, List.flatten_cons, List.flatten_nil,
         List.append_nil, Pipe.exchangeAll, Pipe.exchangeOne, hpx]
-      rw [h1, read_logs_err]
+      rw [h1, regroup_err, read_logs_err]
 
 end PipeExchange
 
@@ -1518,12 +1532,12 @@ theorem send_emit (s : St) (pos : Nat) (b b' : IBatch) (ht : s.tok = some pos)
   simp only [send, ht, hsv, readX_emit, hx]
   simp
 
-theorem send_fail (s : St) (pos : Nat) (b b' : IBatch) (ht : s.tok = some pos)
+theorem send_fail (s : St) (pos : Nat) (a : List Log) (b b' : IBatch) (ht : s.tok = some pos)
     (hb : coerceInput c.env p.decl b = .ok b') (hx : p.isProducer = false) (e : Exn)
-    (hrs : runStep p pos = .fail [.err e]) :
-    (send c p s b).2 = [errEv e] := by
-  have hsv : (serve c p pos b).1 = [.err e] := by simp [serve, hx, hb, hrs]
-  simp only [send, ht, hsv, readX]
+    (hrs : runStep p pos = .fail (logItems a ++ [.err e])) :
+    (send c p s b).2 = Sem.lg a ++ [errEv e] := by
+  have hsv : (serve c p pos b).1 = logItems a ++ [.err e] := by simp [serve, hx, hb, hrs]
+  simp only [send, ht, hsv, readX_logs, readX]
   simp [errEv]
 
 theorem hrun_exchange (hx : p.isProducer = false) : ∀ (inputs : List IBatch) (s : St) (pos : Nat),
@@ -1555,7 +1569,7 @@ theorem hrun_exchange (hx : p.isProducer = false) : ∀ (inputs : List IBatch) (
         readExchange_logs]
       simp [Http.readExchange, trailing_logs]
     · have hne : ∀ d, (p.stepAt pos).act ≠ .emit d := fun d hd => hem ⟨d, hd⟩
-      obtain ⟨e, hrs, hpx⟩ := runStep_fail p hx pos hne
+      obtain ⟨a, e, hrs, hpx⟩ := runStep_fail p hx pos hne
       have hrest : rest = [] := by
         cases rest with
         | nil => rfl
@@ -1564,9 +1578,9 @@ theorem hrun_exchange (hx : p.isProducer = false) : ∀ (inputs : List IBatch) (
           obtain ⟨d, hd⟩ := hall (p.stepAt pos) (by simp [playedFrom_succ])
           exact hne d hd
       subst hrest
-      simp only [List.map_nil, run, List.flatten_nil, List.append_nil, Http.exchangeAll, Http.exchangeOne, hpx,
-        Http.readExchange]
-      rw [send_fail c p s pos b b' ht hb hx e hrs]
+      simp only [List.map_nil, run, List.flatten_nil, List.append_nil, Http.exchangeAll, Http.exchangeOne, hpx]
+      rw [send_fail c p s pos a b b' ht hb hx e hrs, readExchange_logs]
+      simp [Http.readExchange]
 
 
 theorem parseInit_token (ls : List Log) (pos : Nat) :
@@ -1588,7 +1602,8 @@ open Aux
 theorem C10_shapes :
     Gen.C10.coerceGuards = ["batch.schema == target_schema", "set(batch_names) != set(target_names)",
                             "batch_names != target_names", "batch.schema != target_schema"] ∧
-    Gen.C10.coerceCastCaught = ["pa.ArrowInvalid", "pa.ArrowNotImplementedError", "ValueError"] ∧
+    Gen.C10.coerceHandlers = ["batch = batch.select(target_names) | KeyError -> TypeError",
+      "batch = batch.cast(target_schema) | pa.ArrowInvalid, pa.ArrowNotImplementedError, ValueError -> TypeError"] ∧
     Gen.C10.coerceCastRaises = "TypeError" ∧
     Gen.C10.mismatchParts = ["Input schema mismatch: expected ", "{target_schema}", ", got ", "{batch.schema}"] ∧
     Gen.C10.coerceAtPipe = true ∧ Gen.C10.coerceAtHttp = true ∧
